@@ -143,16 +143,6 @@ func VerifCacheHistory() {
 		i := verifChoice("op"+verifItoa(t), len(pool))
 		op := pool[i]
 		verifLog("op: " + op.q)
-		// recorded findings: an earlier request of this history has the same selection set but another
-		// operation type / operation name
-		for _, prev := range hist {
-			if prev.sel == op.sel && prev.typ != op.typ {
-				verifKnown("C14-operation-type-not-in-key", true)
-			}
-			if prev.sel == op.sel && prev.typ == op.typ && prev.name != op.name {
-				verifKnown("C14-operation-name-not-in-key", true)
-			}
-		}
 		hist = append(hist, op)
 		got, gerr := cp.Plan(env.ctx(op))
 		want, werr := sp.Plan(env.ctx(op))
